@@ -309,7 +309,10 @@ def run(tier, replay):
                     if again[o["id"]]["ok"]:
                         unconfirmed += 1
                     out[i] = again[o["id"]]
+        drifts = {}
         for o in out:
+            for d in o.get("drift") or []:
+                drifts.setdefault(d, []).append(o["id"])
             ctx.cov["evaluations"] += 1
             if o["nontrivial"]:
                 ctx.cov["distinct_nontrivial"] += 1
@@ -326,6 +329,10 @@ def run(tier, replay):
                 gl = by_id[o["id"]]
                 ctx.sample({"entry": gl["entry"], "upstream_events": gl["ev"], "segments": [s["k"] for s in gl["wire"]],
                             "answer": o["trace"]["got"], "forwarded": o["trace"]["seen"]})
+        for d, ids in drifts.items():
+            # beyond the property (it says "502 Bad Gateway", not what the page looks like; it does not fix the timeout
+            # proxy_handler passes): reported, never gating
+            ctx.drift("C09 " + key, "%s (%d behaviour(s), e.g. %s)" % (d, len(ids), ids[0]), {"kind": "proxy-drift", "what": d, "gen": by_id[ids[0]]})
         ctx.cov["traces_validated_against_impl"] += len(out)
         ctx.add_part("behaviours %s (%s, %d ms)" % (cfg, key, timeout_ms), generated=total, replayed=len(out), mismatches=bad,
                      retried=len([o for o in out if o.get("retried")]), mismatches_not_confirmed_on_rerun=unconfirmed)
